@@ -59,8 +59,16 @@ class _Timeout(BaseException):
   pass
 
 
+_guard = {'active': False}
+
+
 def _Alarm(signum, frame):
-  raise _Timeout()
+  # Only inside the guarded region: an alarm that fires while the guard is
+  # being torn down must not escape (it would kill the pool worker and hang
+  # Pool.map).
+  if _guard['active']:
+    _guard['active'] = False
+    raise _Timeout()
 
 
 _WARMUP = {'id': 'warmup', 'text': [['r', 'a']], 'cyclic': False,
@@ -111,9 +119,14 @@ def _Rules(case):
 def _Guarded(fn, timeout):
   """-> (status, value)."""
   m = impl.Mods()
+  _guard['active'] = True
   signal.setitimer(signal.ITIMER_PROF, timeout)
   try:
-    return 'ok', fn()
+    try:
+      return 'ok', fn()
+    finally:
+      _guard['active'] = False       # from here on a late alarm is ignored
+      signal.setitimer(signal.ITIMER_PROF, 0)
   except _Timeout:
     return 'timeout', ''
   except MemoryError:
@@ -124,8 +137,6 @@ def _Guarded(fn, timeout):
     if isinstance(e, KeyboardInterrupt):
       raise
     return 'internal', '%s: %s' % (type(e).__name__, str(e)[:200])
-  finally:
-    signal.setitimer(signal.ITIMER_PROF, 0)
 
 
 def _UnitCase(arg):
